@@ -14,6 +14,8 @@ git apply "$P" || { echo "MUTANT $(basename "$P") does-not-apply"; exit 2; }
 if ! go build ./... >/dev/null 2>&1; then echo "MUTANT $(basename "$P") does-not-compile"; exit 2; fi
 if ! go test -vet=off -count=1 ./... >/tmp/mutant-tests.log 2>&1; then echo "MUTANT $(basename "$P") fails-own-tests"; grep -m3 "FAIL" /tmp/mutant-tests.log; [ "${QV_MUT_FORCE:-0}" = 1 ] || exit 3; fi
 cd /verif
+# evidence and replay files of mutant runs must not overwrite those of the real tree
+export QV_EVIDENCE_DIR="$(mktemp -d /tmp/qvmut-ev.XXXXXX)" QV_REPLAY_DIR="$(mktemp -d /tmp/qvmut-rp.XXXXXX)"
 for prop in ${PROPS//,/ }; do
   out="$(./check "$prop" "$TIER" 2>&1)"; rc=$?
   case $rc in
@@ -22,4 +24,4 @@ for prop in ${PROPS//,/ }; do
     *) echo "MUTANT $(basename "$P") $prop broken(rc=$rc)"; echo "$out" | tail -5;;
   esac
 done
-find /verif/replays -name '*.json' -newer "$P" -delete 2>/dev/null
+rm -rf "$QV_EVIDENCE_DIR" "$QV_REPLAY_DIR"
